@@ -126,17 +126,22 @@ def check(case, st):
         conts += ["PUSO-rev", "QUSO-rev"] if spin else ["PUBO-rev", "QUBO-rev"]     # same terms, opposite insertion order
     # labelled models built from a raw dict whose keys repeat labels (the labels must still be registered once each)
     conts += ["PUSO-rep", "QUSO-rep", "PCSO-rep"] if spin else ["PUBO-rep", "QUBO-rep", "PCBO-rep"]
+    # one variable spelled with equal labels of different types (1 / True / 1.0): one variable, but two stored keys for one monomial
+    conts += ["PUSO-mixtype", "PCSO-mixtype"] if spin else ["PUBO-mixtype", "PCBO-mixtype"]
     # user-chosen enumeration through the documented set_mapping / set_reverse_mapping
     conts += ["PUSO-setmap", "QUSO-setrev", "PCSO-setrev"] if spin else ["PUBO-setmap", "QUBO-setrev", "PCBO-setrev"]
     for cont_ in conts:
         is_rev = cont_.endswith("-rev")
         is_rep = cont_.endswith("-rep")
+        is_mix = cont_.endswith("-mixtype")
         setmap = cont_.split("-")[1] if ("-set" in cont_) else None
         cont = cont_.split("-")[0]
         if cont in gen.DEG2 and deg > 2:
             continue
         for sch in (gen.MATRIX_SCHEMES if cont in gen.MATRIX else gen.LABELLED_SCHEMES):
             if (is_rev or setmap or is_rep) and sch not in ("int", "str", "rstr"):
+                continue
+            if is_mix and (sch != "int" or sum(1 for k in D0 if 1 in k) < 2):
                 continue
             D = gen.relabel(D0, sch, N)
             if is_rev:
@@ -148,8 +153,15 @@ def check(case, st):
                 late = {k: v for k, v in D.items() if labels[-1] in k}
                 if len(late) == len(D) or len({l for k in D if k not in late for l in k}) < 2:
                     late = {}
-            M = spell(D, cont, spin) if cont in ("dictperm", "dictrep", "dictdup") else gen.build(
-                cont, spell(D, "dictrep", spin) if is_rep else {k: v for k, v in D.items() if k not in late})
+            if is_mix:
+                M = gen.cls(cont)()
+                alt = [True, 1.0]
+                for k, v in D.items():
+                    kk = tuple((alt.pop(0) if (l == 1 and alt) else l) for l in k) if 1 in k else k
+                    M[kk] += v
+            else:
+                M = spell(D, cont, spin) if cont in ("dictperm", "dictrep", "dictdup") else gen.build(
+                    cont, spell(D, "dictrep", spin) if is_rep else {k: v for k, v in D.items() if k not in late})
             if setmap:
                 # convert once BEFORE the enumeration is changed: nothing may remember the old one
                 for _t in ("to_pubo", "to_puso", "to_qubo", "to_quso"):
